@@ -219,8 +219,11 @@ def finish(prop, tier, seed, mod, plan, results, shard_errors, wall) -> int:
         "wall_s": round(wall, 2),
         "violations": len(unknown),
     }
-    edir = ROOT / "evidence"
-    edir.mkdir(exist_ok=True)
+    # evidence/ describes /repo itself; runs against a scratch copy (self-test, seeded changes:
+    # VF_REPO=<worktree>) must not overwrite it
+    observed = os.path.realpath(os.environ.get("VF_REPO", "/repo"))
+    edir = ROOT / "evidence" if observed == os.path.realpath("/repo") else ROOT / ".work" / "evidence-scratch"
+    edir.mkdir(parents=True, exist_ok=True)
     (edir / f"{prop}.json").write_text(json.dumps(evidence, indent=1, default=repr) + "\n")
 
     # ---- report -------------------------------------------------------------------------------
